@@ -12,7 +12,7 @@ ORACLES = ("wcag", "csscolor")
 RULE = ("(a) format_color(c, fmt) for fmt in hex/rgb/hsl/rgb_tuple over all 2^24 colours (thorough) or 2^18 stratified + greys + axes + "
         "cube corners (quick): output is of the right kind and BOTH the library's parser and the CSS reference read it back as exactly c "
         "(tinycss2.color3 as third opinion on 1/64); (b) public API on colours that already pass against black or white (large text): "
-        "make_readable returns c in the counterpart of the input's format for every input spelling; (c) optimiser-path calls: input "
+        "make_readable returns c in the counterpart of the input's format for every input spelling; (c) optimiser-path calls, also with show / save_report and under -W error: input "
         "spelling x outcome (fixed/failed) x mode -> kind of the result and library read-back == reference read-back. "
         "Non-trivial = every (colour, format) judged; distinct by construction in (a)/(b).")
 ASSUMPTIONS = ["oracles/csscolor.py (self-tested against tinycss2.color3); float fast path falls back to exact rationals within 1e-6 of a rounding tie"]
